@@ -120,7 +120,9 @@ inductive DState where
 
 /-- `DispatcherMessage` -/
 inductive Msg where
-  | item (rid : Nat) (kind : ReqKind)
+  /-- a queued request and the codec's connection type its response has to be encoded with
+  (`DispatcherMessage::Item(Request, EncodeCtx)`, fix 380fccd) -/
+  | item (rid : Nat) (kind : ReqKind) (ctxKA : Bool)
   | error (status : Nat)
   deriving DecidableEq, Repr, Inhabited
 
@@ -238,7 +240,8 @@ def finishResponse (c : Cfg) (s : St) (closeUnread : Bool) : St :=
 /-- `send_response` / `send_error_response` (l.459 / l.509): encode the head with the codec's
 connection type (codec.rs:171), then either finish (empty body) or go to `SendPayload`. -/
 def sendResponse (c : Cfg) (s : St) (rid status : Nat) (body : BodyKind) : St :=
-  let closeUnread := closeForUnread s
+  -- with queued requests the payload slot belongs to a later request (fix 4ad0000)
+  let closeUnread := s.messages.isEmpty && closeForUnread s
   let closeAfter := s.draining || closeUnread
   let ka := if closeAfter then false else s.codecKA
   let s := { s with codecKA := ka, writeBuf := s.writeBuf ++ [Out.head status (!ka)] }
@@ -276,7 +279,12 @@ def itemState (c : Cfg) (s : St) (kind : ReqKind) : St :=
 def onItem (c : Cfg) (i : In) (s : St) (kind : ReqKind) : St × List Out :=
   match s.st with
   | .none => handleRequest c i (itemState c s kind) s.nextRid kind
-  | _ => ({ itemState c s kind with messages := s.messages ++ [Msg.item s.nextRid kind] }, [])
+  | _ =>
+    -- the new request's context travels with the queued message; the codec gets the context of
+    -- the in-flight response back (l.905 `in_flight_ctx`, l.954)
+    ({ itemState c s kind with
+        codecKA := s.codecKA
+        messages := s.messages ++ [Msg.item s.nextRid kind ((kind != ReqKind.c) && c.kaEnabled)] }, [])
 
 /-- outcome of one iteration of a loop of the dispatcher -/
 inductive Iter where
@@ -333,7 +341,7 @@ def finishBody (c : Cfg) (s : St) : St :=
 request's payload receiver -/
 def clearMessages (s : St) : St :=
   let dropped := match s.payload with
-    | some (o, dr) => some (o, dr || s.messages.any (fun m => match m with | .item r _ => r == o | _ => false))
+    | some (o, dr) => some (o, dr || s.messages.any (fun m => match m with | .item r _ _ => r == o | _ => false))
     | none => none
   { s with messages := [], payload := dropped }
 
@@ -347,7 +355,9 @@ def respStep (c : Cfg) (i : In) (s : St) : Iter :=
       .stop { s with keepAlive := false, shutdown := s.shutdown || !s.linger } [] false
     else
       match s.messages with
-      | .item rid kind :: ms => .next { s with messages := ms, st := .service rid kind } [Out.call rid kind]
+      | .item rid kind ka :: ms =>
+        -- `codec.set_encode_ctx(ctx)` (l.588)
+        .next { s with messages := ms, st := .service rid kind, codecKA := ka } [Out.call rid kind]
       | .error status :: ms => .next (sendResponse c { s with messages := ms } 0 status .empty) []
       | [] =>
         -- l.611–618
@@ -428,7 +438,7 @@ def pollHeadTimer (c : Cfg) (i : In) (s : St) : St :=
     { sendResponse c s 0 408 .empty with shutdown := true, headTimer := .inactive }
   else s
 
-/-- the keep-alive timer has fired (l.1079–1092 with fix d7d4f66): SHUTDOWN, clear the timer,
+/-- the keep-alive timer has fired (l.1079–1092 with fix 71715de): SHUTDOWN, clear the timer,
 start the shutdown timer unless one is running; without a disconnect timeout drop the socket -/
 def kaExpire (c : Cfg) (i : In) (s : St) : St :=
   let s := { s with shutdown := true, kaTimer := .inactive }
@@ -492,13 +502,19 @@ def applyDisc (disc : Bool) (s : St) : St :=
   if disc then { s with readDisc := true, payload := none } else s
 
 /-- l.1366: idle in keep-alive after a finished response: start the keep-alive timer unless it is
-already running (fix b27cf0f) -/
+already running (fix 7674452) -/
 def armKa (c : Cfg) (i : In) (s : St) : St :=
   if s.keepAlive && s.finished && !s.kaTimer.isActive then
     match c.kaDeadline i.cached with
     | some dl => { s with kaTimer := .active dl, wake := s.wake || decide (dl ≤ i.now) }
     | none => s
   else s
+
+/-- `drain_dropped_payload` (fix df764a0): a dropped payload with undecoded input left in the read
+buffer asks for another poll -/
+def drainDropped (s : St) : Bool :=
+  (match s.payload with | some (_, true) => true | _ => false) && !s.readBuf.isEmpty && !s.readDisc &&
+    decide (s.messages.length < 16)
 
 /-- the final block of the normal branch (l.1407–1463) -/
 def normalTail (c : Cfg) (s : St) (o : List Out) : Step :=
@@ -515,8 +531,8 @@ def normalTail (c : Cfg) (s : St) (o : List Out) : Step :=
         if s.finished && !s.keepAlive && s.payload.isNone then
           .again { s with finished := false, shutdown := true } o
         else if s.shutdown then .again s o
-        else .ret { s := s, outs := o, selfWake := s.linger || s.shutdown }
-    else .ret { s := s, outs := o, selfWake := s.linger || s.shutdown }
+        else .ret { s := s, outs := o, selfWake := drainDropped s || s.linger || s.shutdown }
+    else .ret { s := s, outs := o, selfWake := drainDropped s || s.linger || s.shutdown }
 
 /-- request / response processing of the normal branch (l.1345–1360): `poll_request`, the
 `should_disconnect` update, `poll_response` -/
@@ -533,7 +549,7 @@ def pollNormal (c : Cfg) (i : In) (s : St) (o : List Out) : Step :=
   let fl := flush i (armKa c i m.1)
   normalTail c fl.1 (o ++ m.2 ++ fl.2.1)
 
-/-- the SHUTDOWN branch of `poll` (l.1312–1321, with the timer of fix 393d1a8) -/
+/-- the SHUTDOWN branch of `poll` (l.1312–1321, with the timer of fix 3e7b6bd) -/
 def pollShutdown (c : Cfg) (i : In) (s : St) (o : List Out) : Res :=
   if s.writeDisc then { s := { s with complete := true }, outs := o ++ [Out.done .ok] }
   else
